@@ -116,7 +116,8 @@ func (cp *comp) lhs(e Expr) *lval {
 			sel = nil
 		}
 	} else if memIdx != nil {
-		cp.e.unsupported(cp.sc, e.exprLine(), "select of a select on the left-hand side ("+ExprString(e)+")")
+		cp.errf(ClassSyntax, e.exprLine(), "%s: select of a select of vector '%s'", ExprString(e), id.Name)
+		return nil
 	}
 
 	// kind check and driver bookkeeping
